@@ -32,6 +32,8 @@ def gen(module, constants, invariants, label, chk, timeout=1500, xmx="10g"):
 def harness(chunk, arch="msgpack"):
     if arch == "json":
         return vlib.build("scn_json", ["scn_json.cpp"], groups=("common",))
+    if arch == "xml":
+        return vlib.build("scn_xml", ["scn_xml.cpp"], groups=("common",), libs=["-lpugixml"])
     defs = [] if chunk == 256 else ["BITSERIALIZER_VERIF_CHUNK_SIZE=%d" % chunk]
     return vlib.build("scn_msgpack_c%d" % chunk, ["scn_msgpack.cpp"], groups=("msgpack", "common"), defines=defs)
 
